@@ -648,6 +648,9 @@ pub fn format_code(
 		ConvTypeV::Char => match value.clone() {
 			Val::Num(n) => {
 				let n = n.get();
+				if n <= -1.0 {
+					bail!("%c requires a non-negative codepoint, got {n}");
+				}
 				tmp_out.push(
 					std::char::from_u32(n as u32)
 						.ok_or_else(|| InvalidUnicodeCodepointGot(n as u32))?,
